@@ -30,7 +30,7 @@ ASSUMPTIONS = ["programs are straight-line (no loops), so the expected log is co
 CASES = {"quick": 250, "thorough": 6000}
 NSHARDS = 16
 
-CONSTRUCTS = ["new", "unannotated", "old", "none", "disabled", "dataclass", "method", "classmethod", "staticmethod", "property", "with", "recursion", "generator", "coroutine", "nonbinding"]
+CONSTRUCTS = ["new", "unannotated", "ctxcopy", "old", "none", "disabled", "dataclass", "method", "classmethod", "staticmethod", "property", "with", "recursion", "generator", "coroutine", "nonbinding"]
 EXITS = ["return", "Exception", "KeyboardInterrupt", "GeneratorExit", "SystemExit"]
 RAISE = {"Exception": "raise ValueError('x')", "KeyboardInterrupt": "raise KI()", "GeneratorExit": "raise GeneratorExit()", "SystemExit": "raise SE(3)"}
 
@@ -46,11 +46,12 @@ def required_counters(tier):
 
 
 PRELUDE = '''
-import dataclasses, typing
+import contextvars, dataclasses, typing
 import numpy as np
 import jaxtyping
 from jaxtyping import jaxtyped, Shaped, AnnotationError
 LOG = []
+CTX = {}
 class KI(KeyboardInterrupt): pass
 class SE(SystemExit): pass
 def A(n): return np.broadcast_to(np.float32(0), (n,))
@@ -201,7 +202,7 @@ class Gen:
 
         if self.disabled and c == "recursion":
             c = "new"
-        NEW_STYLE = ("new", "unannotated", "dataclass", "method", "classmethod", "staticmethod", "property")
+        NEW_STYLE = ("new", "unannotated", "ctxcopy", "dataclass", "method", "classmethod", "staticmethod", "property")
 
         def framed(bind_ind, bind_p, n):
             if self.disabled and c in NEW_STYLE:
@@ -223,6 +224,31 @@ class Gen:
             self.pairs.add(("nonbinding", "TypeError"))
             return self.call_site(ind, i, self.rng.choice((f"f_{i}()", f"f_{i}(A(2), 1, 2)", f"f_{i}(A(2), n=1, z=3)")), "TypeError", depth)
         self.pairs.add((c, ex))
+        if c == "ctxcopy":
+            # a contextvars.Context copied while the call is open (what create_task / call_soon / to_thread do),
+            # and code run inside that copy AFTER the call has ended: bindings are per thread and per call,
+            # so that code sees exactly what the current thread has open now - never the ended call's frame
+            self.emit(ind, f"@jaxtyped(typechecker={tc})")
+            self.emit(ind, f"def f_{i}(x: {ann}, n: int):")
+            self.emit(ind + 1, f"CTX[{i}] = contextvars.copy_context()")
+            prop = framed(ind + 1, True, nval)
+            r = self.call_site(ind, i, f"f_{i}(A({size}), {nval})", prop, depth)
+            if r is None and not self.disabled:
+                j1, j2 = self.new_id(), self.new_id()
+                self.emit(ind, f"CTX[{i}].run(obs, {j1})")
+                self.expected.append((j1, "obs", self.tr()))
+                self.emit(ind, f"CTX[{i}].run(chk, {j2}, 'a', 2)")
+                if not self.stack:
+                    self.expected.append((j2, "chk", True, {}))
+                else:
+                    b = self.stack[-1]["binds"]
+                    if "a" in b:
+                        ok = b["a"] == 2
+                    else:
+                        b["a"] = 2
+                        ok = True
+                    self.expected.append((j2, "chk", ok, self.tr()))
+            return r
         if c == "unannotated":
             # no annotation anywhere: still a jaxtyped call, so still a context of its own
             self.emit(ind, f"@jaxtyped(typechecker={tc})")
